@@ -10,6 +10,7 @@
 -/
 import TakVerif.Lemmas.ServerProgress
 import TakVerif.Lemmas.ServerTrace
+import TakVerif.Lemmas.ServerObs
 
 namespace Tak.C17
 
@@ -170,6 +171,16 @@ theorem C17_quiescent_answered {cap : Nat} (hcap : 0 < cap) {f : P → R} {as : 
   have : s.answeredIds.count r.id ≠ 0 := by omega
   exact Classical.byContradiction fun hn => this (List.count_eq_zero.mpr hn)
 
+/-- The bound of `C17_fifo_progress` as a predicate on an observed run: `firstStarved` replays the
+    timeline (request entered the queue / model call completed / caller answered) and reports a
+    request that sees more than depth-at-entry + 1 completed model calls before its answer.  On the
+    timeline of ANY execution of the transition system — any batch policy, capacity, admission
+    order — it reports nothing; so a report on the implementation's timeline is a behaviour no
+    refinement of the model has ("a request stays unanswered while the model keeps answering"). -/
+theorem C17_observed_progress {cap : Nat} {f : P → R} (as : List (Action P)) :
+    firstStarved [] (obsOfRun cap f (init : State P R) as) = none :=
+  obs_run_ok as init [] (inv_init f) ⟨rfl, fun j x h => by simp at h⟩
+
 /-! ### client side -/
 
 /-- `np.frombuffer(a.tobytes(), float32)` gives back `a` bit for bit: little-endian 4-byte
@@ -252,6 +263,14 @@ example : (run 2 exF init exActs).map (fun s => (ids s.pending,
       (step 2 exF s .complete).isSome, (step 2 exF s .take).isSome,
       (step 2 exF s .close).isSome, (step 2 exF s (.enter 0)).isSome)) =
     some ([], false, false, false, false) := by decide
+
+/-- the predicate of `C17_observed_progress` is not vacuous: the timeline of `exActs` has four
+    entries, two completed calls and four answers, and a timeline in which the first request in
+    line is passed over by a completed model call is reported -/
+example : (obsOfRun 2 exF (init : State (List Nat) Nat) exActs).length = 10 := by decide
+
+example : (firstStarved [] [.entered 1, .entered 2, .completed, .answered 2, .completed,
+    .answered 1]).map (fun x => (x.id, x.depth, x.seen)) = some (1, 0, 2) := by decide
 
 /-- bytes: 1.0f = 0x3F800000 ↦ 00 00 80 3F -/
 example : encodeLE [0x3F800000#32, 0x00000001#32] =
